@@ -54,6 +54,10 @@ func (m *Mutex) Unlock() {
 	if simrt.Exiting() {
 		return
 	}
+	// a scheduling point while the lock is still held: a thread can lose the CPU
+	// at the very end of its critical section, which is the only way another
+	// task ever sees this lock busy in a TryLock or queues up behind it
+	simrt.Point(simrt.OpUnlock, unsafe.Pointer(m))
 	if !simrt.ReleaseMutex(&m.m) {
 		panic("sync: unlock of unlocked mutex")
 	}
@@ -95,6 +99,7 @@ func (rw *RWMutex) Unlock() {
 	if simrt.Exiting() {
 		return
 	}
+	simrt.Point(simrt.OpUnlock, unsafe.Pointer(rw))
 	if !simrt.ReleaseWrite(&rw.m) {
 		panic("sync: Unlock of unlocked RWMutex")
 	}
